@@ -9,6 +9,9 @@ A tick field is `-` (no input this tick) or `,`-separated items; an item is an i
 flows with two inputs use `<items>/<items>`.  Anything else -> bad-op.
 -/
 import HvHydro2.Model.Ops
+import HvHydro2.Model.Ticks
+import HvHydro2.Model.Sliced
+import HvHydro2.Model.Atomic
 open HvHydro2
 
 def parseInt (s : String) : Option Int := s.toInt?
@@ -103,6 +106,110 @@ def runTicks (f : String → String → Option String) (ticks : List String) : O
     hist := if hist == "-" then t else if t == "-" then hist else hist ++ "," ++ t
   pure ("|".intercalate outs)
 
+
+/-! ### C33 / C31 / C34: whole-history evaluation (the tick-step models) -/
+
+def prefixes {α : Type} (l : List α) : List (List α) := (List.range l.length).map fun i => l.take (i + 1)
+
+def i32Min : Int := -2147483648
+def maxF (a v : Int) : Int := if v > a then v else a
+
+def c33Run (op : String) (ticks : List String) : Option String :=
+  match op with
+  | "cnt" => do
+    let h ← ticks.mapM parseItems
+    pure ("|".intercalate ((prefixes h).map fun p => toString (countAfter p)))
+  | "fmax" => do
+    let h ← ticks.mapM parseItems
+    pure ("|".intercalate ((prefixes h).map fun p => toString (singletonAfter i32Min maxF p)))
+  | "vcount" => do
+    let h ← ticks.mapM parsePairs
+    pure ("|".intercalate ((prefixes h).map fun p =>
+      showPairs (sortPairsNat (keyedAfter 0 (fun c (_ : Int) => c + 1) p))))
+  | "kmax" => do
+    let h ← ticks.mapM parsePairs
+    pure ("|".intercalate ((prefixes h).map fun p => showPairs (sortPairs (keyedAfter i32Min maxF p))))
+  | "ksum" => do
+    let h ← ticks.mapM parsePairs
+    pure ("|".intercalate ((prefixes h).map fun p =>
+      showPairs (sortPairs (keyedAfter (0 : Int) (fun a v => a + v) p))))
+  | "kfirst_map" => do
+    let h ← ticks.mapM parsePairs
+    pure ("|".intercalate ((prefixes h).map fun p => showPairs (sortPairs (firstAfter p))))
+  | "kfirst_entries" => do
+    let h ← ticks.mapM parsePairs
+    pure ("|".intercalate ((List.range h.length).map fun i =>
+      showPairs (sortPairs (firstEmitted (firstAfter (h.take i)) (h.getD i [])))))
+  | _ => none
+
+def splitTwo (s : String) : Option (String × String) :=
+  match s.splitOn "/" with
+  | [a, b] => some (a, b)
+  | _ => none
+
+def sumInts (l : List Int) : Int := l.foldl (· + ·) 0
+
+def c31Run (op : String) (ticks : List String) : Option String :=
+  match op with
+  | "batches" => do
+    let h ← ticks.mapM parseItems
+    pure ("|".intercalate ((runBatches [] (prodSchedule h)).1.map showInts))
+  | "batch_snap" => do
+    let h ← ticks.mapM parseItems
+    let bs := (runBatches [] (prodSchedule h)).1
+    pure ("|".intercalate ((List.range h.length).map fun i =>
+      s!"{(bs.getD i []).length}:{countAfter (h.take (i + 1))}"))
+  | "two_batches" => do
+    let h ← ticks.mapM splitTwo
+    let a ← h.mapM (fun p => parseItems p.1)
+    let b ← h.mapM (fun p => parseItems p.2)
+    let ba := (runBatches [] (prodSchedule a)).1
+    let bb := (runBatches [] (prodSchedule b)).1
+    pure ("|".intercalate ((List.range h.length).map fun i =>
+      let x := ba.getD i []; let y := bb.getD i []
+      s!"{x.length}:{y.length}:{sumInts x}:{sumInts y}"))
+  | "state_counter" => do
+    let h ← ticks.mapM parseItems
+    pure ("|".intercalate ((runSliced counterBody none (runBatches [] (prodSchedule h)).1).map toString))
+  | "state_prev_last" => do
+    let h ← ticks.mapM parseItems
+    pure ("|".intercalate ((runSliced prevLastBody none (runBatches [] (prodSchedule h)).1).map showOptInt))
+  | "lookup_counts" => do
+    let h ← ticks.mapM splitTwo
+    let incs ← h.mapM (fun p => parsePairs p.1)
+    let gets ← h.mapM (fun p => parseItems p.2)
+    pure ("|".intercalate ((List.range h.length).map fun i =>
+      let counts := keyedAfter 0 (fun c (_ : Int) => c + 1) (incs.take (i + 1))
+      let resp := (gets.getD i []).filterMap fun k => (lookup counts k).map fun n => (k, (n : Int))
+      showPairs (sortPairs resp)))
+  | _ => none
+
+def tripleLe (a b : Int × Int × Int) : Bool :=
+  a.1 < b.1 || (a.1 == b.1 && (a.2.1 < b.2.1 || (a.2.1 == b.2.1 && a.2.2 ≤ b.2.2)))
+def showTriples (l : List (Int × Int × Int)) : String :=
+  if l.isEmpty then "-" else ",".intercalate ((l.mergeSort tripleLe).map fun t => s!"{t.1}:{t.2.1}:{t.2.2}")
+
+def c34Run (op : String) (ticks : List String) : Option String :=
+  match op with
+  | "atomic_sum" | "plain_sum" => do
+    let h ← ticks.mapM splitTwo
+    let ws ← h.mapM (fun p => parseItems p.1)
+    let rs ← h.mapM (fun p => parseItems p.2)
+    let run := runAtomic (fun (s : Int) w => s + w) ⟨[], 0⟩ (prodSchedule ws)
+    pure ("|".intercalate ((List.range h.length).map fun i =>
+      let (acks, st) := run.getD i ([], 0)
+      s!"acks={showInts acks};resp={showPairs ((rs.getD i []).map fun r => (r, st))}"))
+  | "keyed_counter" => do
+    let h ← ticks.mapM splitTwo
+    let ws ← h.mapM (fun p => parsePairs p.1)
+    let rs ← h.mapM (fun p => parsePairs p.2)
+    let run := runAtomic counterStep ⟨[], []⟩ (prodSchedule ws)
+    pure ("|".intercalate ((List.range h.length).map fun i =>
+      let (acks, st) := run.getD i ([], [])
+      let resp := (rs.getD i []).filterMap fun g => (lookup st g.2).map fun n => (g.1, g.2, (n : Int))
+      s!"acks={showPairs (sortPairs acks)};resp={showTriples resp}"))
+  | _ => none
+
 structure St where
   mode : String
   op : String
@@ -120,6 +227,9 @@ def step (st : St) (line : String) : St × String :=
     let ts := ticks.splitOn "|"
     let res := match st.mode with
       | "c32" => runTicks (c32Tick st.op) ts
+      | "c33" => c33Run st.op ts
+      | "c31" => c31Run st.op ts
+      | "c34" => c34Run st.op ts
       | _ => none
     (st, res.getD "bad-op")
   | _ => (st, "bad-op")
